@@ -19,40 +19,40 @@ CLAIMED = {
              text="Decides that reference kinds, indices, names, amounts, units and notes of the simplified recipe are taken from the same-kind / same-named parts of the core recipe, that dereferencing uses the same-kind vector with the given index, that grouping keys carry the value's own variant, that merging looks the bucket up by the incoming key and adds incoming into stored field by field, and that combine_ingredients is the selection over all indices folding each once. Numerical sums and map order are not decided.",
              ref="DESIGN.md §5 C19"),
  "C07": dict(technique="catalogue inventory of diagnostic constructions + forward def-use to a sink + stage/severity constants + shape of the parse-error short circuit and of the validity predicate",
-             text="Weak: decides that no catalogued check was deleted or downgraded (per-module floors), that every constructed diagnostic reaches a sink with the matching severity and the stage of its module, that a parse-stage error returns no output and keeps only parse diagnostics while other paths keep the output, that validity is has_output and no errors, that parsed fractions pass the zero-denominator rejection, and that the out-of-range test of an intermediate reference is the emptiness of the step-filtered n-th lookup / a comparison with the number of finished sections, and that the emptiness predicate behind the empty-name/unit/key/value checks examines every fragment, and that the primary label stays labels[0] (constructors start with it, the list is only pushed to). It does not decide that a check fires on the right condition, that well-formed recipes are diagnostic-free, or where labels point.",
+             text="Weak: decides that no catalogued check was deleted or downgraded (per-module floors), that every constructed diagnostic reaches a sink with the matching severity and the stage of its module, that a parse-stage error returns no output and keeps only parse diagnostics while other paths keep the output, that validity is has_output and no errors, that parsed fractions pass the zero-denominator rejection, and that the out-of-range test of an intermediate reference is the emptiness of the step-filtered n-th lookup / a comparison with the number of finished sections, and that the emptiness predicate behind the empty-name/unit/key/value checks examines every fragment, that the forbidden-modifier sets are the reviewed ones, and that the primary label stays labels[0] (constructors start with it, the list is only pushed to). It does not decide that a check fires on the right condition, that well-formed recipes are diagnostic-free, or where labels point.",
              ref="DESIGN.md §5 C07"),
  "C13": dict(technique="sibling agreement between the parse-time validator and the accessors (call-graph reach per StdKey arm) + integer arithmetic discipline + mutation/ordering rule on the servings list",
-             text="Partial: decides that each standard key is validated at parse time by the interpretation function its accessor uses and that both metadata styles run it and store servings; that the duration parsers' integer arithmetic is the reviewed, checked set; that the servings list is returned in declaration order and its duplicate test runs on a sorted copy; that tags enter the result only under the non-empty and not-yet-present tests; that parse-time validation never goes through an error-discarding accessor; that the number of a number-unit duration is the leading run of digits and '.'. What each parser accepts is not decided.",
+             text="Partial: decides that each standard key is validated at parse time by the interpretation function its accessor uses and that both metadata styles run it and store servings; that the duration parsers' integer arithmetic is the reviewed, checked set; that the servings list is returned in declaration order and its duplicate test runs on a sorted copy; that tags enter the result only under the non-empty and not-yet-present tests; that parse-time validation never goes through an error-discarding accessor; that the number of a number-unit duration is the leading run of digits and '.'; that the by-name minutes unit of a user converter is tested to be a Time unit. What each parser accepts is not decided.",
              ref="DESIGN.md §5 C13"),
  "C14": dict(technique="argument lineage of the two parse entry points + must-pass-through of every parsed metadata entry to the event queue + purity of the projection",
-             text="Weak: decides that both entry points build the same parser, share the entry parser metadata_entry, emit every entry it returns, run the same analysis with the same extensions/converter/options on every path (no early return that bypasses the scanner), and that the metadata result is the untouched metadata field. That both scanners decide 'a `>>` at the start of a line' from the token stream in the same way (previous token is a Newline token, peeked token is MetadataStart; lines end at the Newline token and nowhere else, never judged from the input text) is decided; that they select the same lines in every other respect (multi-line blocks, config keys under MODES) is not.",
+             text="Weak: decides that both entry points build the same parser, share the entry parser metadata_entry, emit every entry it returns, run the same analysis with the same extensions/converter/options on every path (no early return that bypasses the scanner), and that the metadata result is the untouched metadata field. That both scanners decide 'a `>>` at the start of a line' from the token stream in the same way (previous token is a Newline token, peeked token is MetadataStart; lines end at the Newline token and nowhere else, never judged from the input text) and the single-line flag of a block is that of its first non-empty line, is decided; that they select the same lines in every other respect (multi-line blocks, config keys under MODES) is not.",
              ref="DESIGN.md §5 C14"),
  "C06": dict(technique="pairing / ordering / lineage rules on the MIR of the analysis collector (must-pass-through, edge dominance, value lineage by backward slicing)",
              text="Decides structural necessary conditions of referential consistency: step item indices come from the same-kind collector method which returns len(table)-1 of the table it pushed to; content and location tables are pushed in lock-step; references are set from a search that excludes references, and listed back exactly once before the push; the step counter is reset per section and bumped per pushed step; empty sections are not pushed; intermediate references are bounds-checked and step-filtered; every component made a reference also receives the REF modifier and is reported to the caller (which adds the back link); a timer without a name is built only where its quantity is known to be present; text items are built only under a non-empty test of their value (analysis side) or of the parsed text (step parser side). Name equality, document order and emptiness of steps are not decided.",
              ref="DESIGN.md §5 C06"),
  "C10": dict(technique="must-pass-through store analysis of GroupedQuantity::add / GroupedValue::add, field-coverage of readers, insert-result usage, lineage of the listing pipeline",
-             text="Decides that no path through the grouping functions drops its argument, that every reader of a grouped quantity covers all four stores, that quantity-map inserts cannot silently overwrite (one reviewed finding), that a text value can never be stored into a running total, and that totals are built from the definition plus its referenced_from entries, definitions only, listed-only, keyed by display name. Numerical sums and fit() are not decided.",
+             text="Decides that no path through the grouping functions drops its argument, that every reader of a grouped quantity covers all four stores, that quantity-map inserts cannot silently overwrite (one reviewed finding), that a text value can never be stored into a running total, that the common unit of an addition is the left operand's, and that totals are built from the definition plus its referenced_from entries, definitions only, listed-only, keyed by display name. Numerical sums and fit() are not decided.",
              ref="DESIGN.md §5 C10"),
  "C11": dict(technique="C03 inventories restricted to the aisle module + lookup/insert pairing by dominance and key-expression equality + span formula shape + value lineage of the lookup map + writer/reader delimiter agreement from decoded format templates",
-             text="Partial: decides the totality clause (reviewed failure sites, arithmetic and loops of the aisle parser/writer), that each insertion into a duplicate-detection set is confined to the not-found outcome of a lookup of the same key with the stored value trimmed like the checked one, and that every error span is directly the pointer-offset span of one sub-slice of the input (no other Span is built in the parser). Lookup: every IngredientInfo takes the first name of its line as common name, the enclosing category, and is stored under the iterated name. The writer's delimiters and line ends are exactly what the parser strips and splits on (a necessary condition of the round trip), and comments start at the first `//`; the round trip itself is not decided.",
+             text="Partial: decides the totality clause (reviewed failure sites, arithmetic and loops of the aisle parser/writer), that each insertion into a duplicate-detection set is confined to the not-found outcome of a lookup of the same key with the stored value trimmed like the checked one, and that every error span is directly the pointer-offset span of one sub-slice of the input (no other Span is built in the parser). Lookup: every IngredientInfo takes the first name of its line as common name, the enclosing category, and is stored under the iterated name. The writer's delimiters and line ends are exactly what the parser strips and splits on (a necessary condition of the round trip), comments start at the first `//`, and the writer prints stored names verbatim; the round trip itself is not decided.",
              ref="DESIGN.md §5 C11"),
  "C12": dict(technique="rational-function identity between the writer (new_approx) and the reader (Number::value) + edge-dominance of every Some(Fraction) by its limit checks + format templates of Display decoded from MIR constants + shape of the lookup-table constructor",
              text="Partial: decides that value() of every fraction new_approx can return is the approximated input as a symbolic identity, that each returned fraction is dominated by the positive/finite, whole<=max_whole and |err|<=accuracy*value tests, that the fractional part comes from the max_den-bounded lookup, that configured limits are clamped, that the printed forms are exactly `w`, `n/d`, `w n/d` with a component omitted only when it is zero, and that the table holds numerators 1..den keyed by n/d. Nearest-fraction choice and all numerics are not decided.",
              ref="DESIGN.md §5 C12"),
  "C09": dict(technique="data check of the shipped unit table against an independent reference + rational-function shape analysis of the conversion formula on MIR + guard dominance + argument lineage",
-             text="Decides: units.toml (and the constants compiled from it) agree with the international unit definitions; convert_f64 is the affine formula with from/to in the right roles as a rational function; range ends are both converted; conversion is dominated by the same-quantity test and convert_impl fails before mutating; best units come from the designated list of the requested system; SI-prefixed units are the base unit scaled by the prefix and are regenerated whole when a layer edits the base. The fraction a fit stores satisfies the C12 identity and limit guards (shared). Threshold selection and float tolerance are not decided.",
+             text="Decides: units.toml (and the constants compiled from it) agree with the international unit definitions; convert_f64 is the affine formula with from/to in the right roles as a rational function; range ends are both converted; conversion is dominated by the same-quantity test and convert_impl fails before mutating; best units come from the designated list of the requested system; SI-prefixed units are the base unit scaled by the prefix and are regenerated whole when a layer edits the base. The converter's input is Number::value() (error included). The fraction a fit stores satisfies the C12 identity and limit guards (shared). Threshold selection and float tolerance are not decided.",
              ref="DESIGN.md §5 C09"),
  "C15": dict(technique="serde derive/attribute symmetry lint over the compiler-resolved type-reachability closure of Recipe (attributes read with syn)",
-             text="Decides that no type reachable from a recipe uses a serde construct known to break JSON round trips (derive pairing, one-sided attributes, skip/skip_serializing_if without default, internal tagging over non-map variants, flatten collisions, untagged ambiguity, duplicate names, non-string map keys, nested Options, borrowed strings, manual impls). Necessary conditions of round-trip equality; serde_json's own behaviour is trusted.",
+             text="Decides that no type reachable from a recipe uses a serde construct known to break JSON round trips (derive pairing, one-sided attributes, skip/skip_serializing_if without default, internal tagging over non-map variants, flatten collisions, untagged ambiguity, duplicate names, non-string map keys, nested Options, borrowed strings, manual impls). Hand-written PartialEq impls of recipe types are plain `f(self) == f(other)`. Necessary conditions of round-trip equality; serde_json's own behaviour is trusted.",
              ref="DESIGN.md §5 C15"),
  "C16": dict(technique="C03 inventories restricted to the builder's call-graph reach + insert-result usage + path-sensitive guard reachability + dominance/ordering rules on the extend and finish pipeline + data consistency check of units.toml + build.rs key agreement",
-             text="Partial: decides that the builder's explicit failure sites / arithmetic / loops are the reviewed ones, that every index insertion is duplicate-checked or a reviewed override, that empty best lists cannot reach the store, that the shipped units file is collision-free and self-consistent, that build.rs reads every key the file uses, that re-indexing removes old keys before an edit and re-adds after, that aliases of regenerated units are carried over, that generated units are regenerated whole, and that finish() computes best lists and fraction settings only after the extend layers were applied. Every join takes data and precedence from the same incoming layer into the same-named field, the two join helpers implement Before/After/Override arm by arm, and every quantity group's best list is examined whether or not the group declares units. Threshold values are not decided.",
+             text="Partial: decides that the builder's explicit failure sites / arithmetic / loops are the reviewed ones, that every index insertion is duplicate-checked or a reviewed override, that empty best lists cannot reach the store, that the shipped units file is collision-free and self-consistent, that build.rs reads every key the file uses, that re-indexing removes old keys before an edit and re-adds after, that aliases of regenerated units are carried over, that generated units are regenerated whole, and that finish() computes best lists and fraction settings only after the extend layers were applied. Every join takes data and precedence from the same incoming layer into the same-named field, the two join helpers implement Before/After/Override arm by arm, every quantity group's best list is examined whether or not the group declares units, and each layer's extend block is kept as its own group. Threshold values are not decided.",
              ref="DESIGN.md §5 C16"),
  "C02": dict(technique="gate-dominance analysis on MIR (edge dominators, bool::then closures, call-site propagation) + confinement inventory of Extensions reads + argument lineage + const-evaluated bit layout",
-             text="Decides four structural necessary conditions of extension independence: each construct that implements an extension's special reading is dominated by the flag-set outcome of a test of its own flag; the control-relevant reads of an Extensions value are exactly the reviewed gate sites; the extension set handed to sub-parsers and the analysis is the configured one; flag bits are disjoint as documented; every text item of a step, in the INLINE_QUANTITIES arm and in the plain arm, is cut from the same joined text. It does not decide that gated code is a no-op on core syntax (a parse result).",
+             text="Decides four structural necessary conditions of extension independence: each construct that implements an extension's special reading is dominated by the flag-set outcome of a test of its own flag; the control-relevant reads of an Extensions value are exactly the reviewed gate sites; the extension set handed to sub-parsers and the analysis is the configured one; flag bits are disjoint as documented; every text item of a step, in the INLINE_QUANTITIES arm and in the plain arm, is cut from the same joined text; range operands are the two sides of one cut. It does not decide that gated code is a no-op on core syntax (a parse result).",
              ref="DESIGN.md §5 C02"),
  "C03": dict(technique="MIR inventories of failure sites, integer arithmetic, index/slice sites with machine-checked discharge conditions (guard dominance, ordering, modular-counter discipline) + must-pass-through progress analysis of every loop and recursion cycle",
-             text="Decides that the set of ways the two library crates can fail to return (explicit panics/asserts/unwraps, unsafe operations, overflowing narrow-integer arithmetic and usize subtraction, index and slice accesses, loops and recursion without a progress construct) is exactly the reviewed set: every site is enumerated on the MIR of the current tree and must match tables/panics.toml, narrow_arith.toml, index_sites.toml, progress.toml, and where the invariant that makes a site safe is a local dominance fact it is re-verified on every run; todo!() is never acceptable; every offset that reaches a diagnostic label has an accepted provenance (report rendering panics otherwise; shared with C04.D1). It does not decide that a guard condition is numerically right, usize additions, stack depth or dependency internals.",
+             text="Decides that the set of ways the two library crates can fail to return (explicit panics/asserts/unwraps, unsafe operations, overflowing narrow-integer arithmetic and usize subtraction, index and slice accesses, loops and recursion without a progress construct) is exactly the reviewed set: every site is enumerated on the MIR of the current tree and must match tables/panics.toml, narrow_arith.toml, index_sites.toml, progress.toml, and where the invariant that makes a site safe is a local dominance fact it is re-verified on every run; todo!() is never acceptable; token slices handed to slice_str/text/float are never filtered copies (debug_assert_adjacent); every offset that reaches a diagnostic label has an accepted provenance (report rendering panics otherwise; shared with C04.D1). It does not decide that a guard condition is numerically right, usize additions, stack depth or dependency internals.",
              ref="DESIGN.md §5 C03"),
  "C18": dict(technique="effect analysis over the resolved call graph (statics, interior mutability, hash iteration, ambient inputs, pointer identity, unsafe) + type-reachability of parser state",
              text="Decides that no function reachable from the parse entry points contains a source of hidden state or nondeterminism and that the parser type holds no shared writable state (Freeze, Send+Sync, &self entry points). This is the whole structural content of the property; what remains is the trusted base (dependencies summarised as pure, user closures).",
